@@ -258,10 +258,20 @@ class LoopSummariser:
                 if p is not None and q is not None and p[0] in (
                         "maxred", "minred") and q == ("sum", Poly()):
                     return Poly.atom((p[0], k, lo, hi, p[1], init, c))
+            for kind in ("min", "max"):
+                tt = _piecewise_step(u, cp, kind)
+                if tt is not None and not _uses(tt, ca):
+                    return Poly.atom((kind + "red", k, lo, hi, tt, init,
+                                      ("true",)))
             return _opaque(nm, "guarded update not recognised")
         st = self._step(u, ca)
         if st is not None and st[0] in ("maxred", "minred"):
             return Poly.atom((st[0], k, lo, hi, st[1], init, ("true",)))
+        for kind in ("min", "max"):
+            tt = _piecewise_step(u, cp, kind)
+            if tt is not None and not _uses(tt, ca):
+                return Poly.atom((kind + "red", k, lo, hi, tt, init,
+                                  ("true",)))
         return _opaque(nm, "update is not a sum / max / min step")
 
     @staticmethod
@@ -287,6 +297,36 @@ class LoopSummariser:
             if red is not None and not _uses(red[1], ca):
                 return red
         return None
+
+
+#: the neutral element of a guarded min (max) step: "no update"
+INF = Poly.var("+inf")
+NEG_INF = Poly.var("-inf")
+
+
+def _piecewise_step(u: Poly, cp: Poly, kind: str) -> Poly | None:
+    """Write u as min(cp, T) (max(cp, T)) with T an ite-tree whose leaves
+    are terms or +inf (-inf) = no update.  None if not of that form."""
+    if u == cp:
+        return INF if kind == "min" else NEG_INF
+    a = u.as_atom()
+    if a is None:
+        return None
+    if a[0] == "app" and a[1] == kind:
+        rest = [x for x in a[2] if x != cp]
+        if len(rest) + 1 != len(a[2]):
+            return None
+        return rest[0] if len(rest) == 1 else Poly.atom(
+            ("app", kind, tuple(rest)))
+    if a[0] == "ite":
+        if cp.as_atom() in all_atoms(a[1]):
+            return None
+        x = _piecewise_step(a[2], cp, kind)
+        y = _piecewise_step(a[3], cp, kind)
+        if x is None or y is None:
+            return None
+        return ite(a[1], x, y)
+    return None
 
 
 def _minmax_enum(u: Poly, cp: Poly) -> tuple[str, Poly] | None:
